@@ -192,7 +192,7 @@ func c16Eval(text string, cfg map[string]any, stack []string) (string, *c16RefEr
 
 func c16Gen(c *core.Ctx) func(yield func(c16Case) bool) {
 	return func(yield func(c16Case) bool) {
-		segs := []string{"p", "${a}", "${b}", "${x}", "${x:d}", "${a:d}", "${m:d}", "${l:d}", "${${k}}", "${x:${a}}", "${x:${x:e}}", "{q}"}
+		segs := []string{"p", "${a}", "${b}", "${x}", "${x:d}", "${a:d}", "${m:d}", "${l:d}", "${${k}}", "${x:${a}}", "${x:${x:e}}", "{q}", "${${${k2}}}", "${x:${x:${x:e}}}"}
 		var tags []string
 		tagSegs := map[string][]string{}
 		add := func(ss ...string) {
@@ -240,7 +240,7 @@ func c16Gen(c *core.Ctx) func(yield func(c16Case) bool) {
 
 func c16Run(c *core.Ctx) {
 	Cases(c, c16Gen(c), func(c *core.Ctx, cs c16Case) {
-		cfg := map[string]any{"k": cs.K, "m": map[string]any{}, "l": []any{}, "c": "z", "az": "${a}"}
+		cfg := map[string]any{"k": cs.K, "k2": "k", "m": map[string]any{}, "l": []any{}, "c": "z", "az": "${a}"}
 		norm := func(v any) any {
 			if f, ok := v.(float64); ok { // JSON round trip of a replay file
 				return int(f)
